@@ -33,6 +33,9 @@ def _finding_for(prop, unit, fn, err_text):
     for f in known_findings().get("findings", []):
         if f.get("property") != prop:
             continue
+        if unit == "kani" and fn in f.get("kani_harnesses", []):
+            # the Kani harness that exhibits this finding fails by design while the finding exists
+            return f
         if f.get("unit") != unit or f.get("function") != fn:
             continue
         cc = f.get("clause_contains")
@@ -176,7 +179,13 @@ def _check(prop, tier, seed, repo, vacuity=True, update_baseline=False):
         try:
             r_ = futures[unit].result() if unit in futures else run_unit(unit, repo, tier, vacuity=vacuity)
             results.append(r_)
+            only_ = cfg.get("functions", {}).get(unit)
+            excl_ = set(cfg.get("exclude_functions", {}).get(unit, []))
             for fn_, why in r_["degraded"].items():
+                short_ = fn_.split("<")[0]
+                if (only_ is not None and fn_ not in only_ and short_ not in only_) or fn_ in excl_:
+                    # a function of a shared unit that this property's obligations do not include
+                    continue
                 undecided.append("unit %s: %s could not be woven (%s): its contract is only ASSUMED in this run" % (unit, fn_, why))
                 fallback_wanted.append((fn_, cfg.get("fallback", {}).get(fn_, [])))
         except Undecided as e:
